@@ -347,6 +347,7 @@ class Kernel:
         self.sync_call_duration = lambda owner, fn: 0.0
         self.wakeup_jitter = lambda rec, period: 0.0
         self.handler_errors = []
+        self.undeliverable = []
         self.time_shim = vclock.TimeShim(self.clock, pc_offset=self._pc_offset, wall_skew=self._wall_skew)
         self.inflight_kinds = {}
 
@@ -576,14 +577,25 @@ class Kernel:
 
     def _deliver(self, rec, sender, blob, cls_name):
         if rec is self.ext:
-            msg = pickle.loads(blob)
+            try:
+                msg = pickle.loads(blob)
+            except Exception as e:  # see below
+                self.undeliverable.append((cls_name, "external", repr(e)))
+                return
             rec.inbox.append(msg)
             self.deliveries.append((self.clock.now, "external", cls_name, sender.label))
             self.last_progress = self.clock.now
             return
         if rec.dead or rec.inst is None:
             return
-        msg = pickle.loads(blob)
+        try:
+            msg = pickle.loads(blob)
+        except Exception as e:
+            # A message that pickles at the sender but cannot be re-created at the receiver (an exception instance whose constructor takes more than
+            # its args, a class from a module the receiving process has not loaded): Thespian's multi-process transports log it and drop it; neither
+            # side is told.
+            self.undeliverable.append((cls_name, rec.addr.label, repr(e)))
+            return
         if rec.exiting and not isinstance(msg, (ta.ActorExitRequest, ta.ChildActorExited)):
             return
         for ob in self.observers:
